@@ -332,7 +332,7 @@ class History:
                 pq.write_table(tbl, buf)
                 t.storage.write_file(f"data/{name}", buf.getvalue())
                 spelled = {"lead": f"/data/{name}", "nolead": f"data/{name}", "double": f"/data//{name}",
-                           "dot": f"/data/./{name}", "updown": f"data/sub/../{name}"}[op[1]]
+                           "dot": f"/data/./{name}", "updown": f"data/sub/../{name}", "dotlead": f"./data/{name}"}[op[1]]
                 if op[1] == "updown":
                     t.storage.makedirs("data/sub")
                 out["spelled"] = spelled
@@ -456,7 +456,7 @@ def gen_ops(rng: random.Random, n: int, alphabet: List[str]) -> List[Tuple[Any, 
         elif k == "readd":
             ops.append(("readd", rng.choice(["ok", "fail", "abandon"])))
         elif k == "prebuilt":
-            ops.append(("prebuilt", rng.choice(["lead", "nolead", "double", "dot", "updown"]), rng.randint(1, 2)))
+            ops.append(("prebuilt", rng.choice(["lead", "nolead", "double", "dot", "updown", "dotlead"]), rng.randint(1, 2)))
         elif k == "reopen":
             ops.append(("reopen",))
         elif k == "raced":
